@@ -80,6 +80,18 @@ def flux_tolerance(eos, branch, tol, vw, vp, vm, Tp, Tm):
     return delta * S + 1e-12
 
 
+SLOW = ("vmin", "slow1", "slow2", "v0.05", "v0.1")  # wall velocities <= 0.1: the region in which known finding D9 is listed generically
+
+
+def _own_junction_residual(hyd, vp, vm, Tp, Tm) -> float:
+    """max relative residual of the two equations matchDeflagOrHyb solves, evaluated with the code's own vpvmAndvpovm."""
+    try:
+        vpvm, vpovm = (float(x) for x in hyd.vpvmAndvpovm(Tp, Tm))
+        return max(abs(vpvm * vpovm - vp * vp) / max(vp * vp, 1e-300), abs(vpvm / vpovm - vm * vm) / max(vm * vm, 1e-300))
+    except Exception:
+        return float("inf")
+
+
 def case_eos(c: dict) -> dict:
     logging.disable(logging.CRITICAL)
     r = Rel(c["id"])
@@ -139,20 +151,28 @@ def case_eos(c: dict) -> dict:
         res = _resid_vec(eos, vp, vm, Tp, Tm)
         t = flux_tolerance(eos, branch, tol, v, vp, vm, Tp, Tm)
         extra = dict(vw=v, vp=vp, vm=vm, Tp=Tp / Tn, Tm=Tm / Tn, branch=branch, converged=bool(hyd.success), fallback=bool(fb[0]))
+        # signature of known finding D9 (unconverged inner 2x2 solve returned): the CODE'S OWN junction equations, evaluated
+        # with its own vpvmAndvpovm at the returned numbers, are violated by an amount comparable with the flux mismatch the oracle measures (> 0.1 x). (A defect in the equations themselves leaves
+        # them satisfied while the oracle's fluxes differ - that is not D9 and keeps the plain relation name.)
+        sig = ""
+        if max(res) > t and name in SLOW:
+            if fb[0] or _own_junction_residual(hyd, vp, vm, Tp, Tm) > 0.1 * max(res):
+                sig = "D9sig:"
+                r.tag("D9-signature(slow wall)")
         if fb[0]:
             # template approximation returned: allowed only if no exact matching exists
             if max(res) > t:
                 ex = OH.solve_matching(eos, Tn, v, float(hyd.vJ))
                 if ex is not None:
-                    r.true(f"{name}:exact-returned-if-exists", False, exact=ex, **extra)
+                    r.true(f"{name}:{sig}exact-returned-if-exists", False, exact=ex, **extra)
                 else:
                     r.tag("fallback-no-exact-found")
             else:
                 r.close(f"{name}:energy-flux", res[0], 0.0, t, **extra)
                 r.close(f"{name}:momentum-flux", res[1], 0.0, t, **extra)
         else:
-            r.close(f"{name}:energy-flux", res[0], 0.0, t, **extra)
-            r.close(f"{name}:momentum-flux", res[1], 0.0, t, **extra)
+            r.close(f"{name}:{sig}energy-flux", res[0], 0.0, t, **extra)
+            r.close(f"{name}:{sig}momentum-flux", res[1], 0.0, t, **extra)
         # boundary constants handed to the wall equations
         try:
             c1, c2, Tp2, Tm2, vmid = hyd.findHydroBoundaries(v)
@@ -170,8 +190,8 @@ def case_eos(c: dict) -> dict:
         r.close(f"{name}:c1=-energyflux(+)", c1, -e1, rt * abs(e1) * 8)
         r.close(f"{name}:c2=momentumflux(+)", c2, m1, rt * (abs(m1) + abs(eos.p("s", Tp))) * 8)
         if not fb[0] or max(res) <= t:
-            r.close(f"{name}:c1=-energyflux(-)", c1, -e2, t * max(abs(e1), abs(e2)) + rt * abs(e1) * 8, **extra)
-            r.close(f"{name}:c2=momentumflux(-)", c2, m2, t * (abs(e1 * vp) + abs(eos.p("s", Tp)) + abs(e2 * vm) + abs(eos.p("b", Tm))), **extra)
+            r.close(f"{name}:{sig}c1=-energyflux(-)", c1, -e2, t * max(abs(e1), abs(e2)) + rt * abs(e1) * 8, **extra)
+            r.close(f"{name}:{sig}c2=momentumflux(-)", c2, m2, t * (abs(e1 * vp) + abs(eos.p("s", Tp)) + abs(e2 * vm) + abs(eos.p("b", Tm))), **extra)
         r.close(f"{name}:velocityMid", vmid, -0.5 * (vp + vm), 4 * np.finfo(float).eps)
     r.detail["returned"] = nret
     return r.result(nontrivial=nret > 0)
@@ -257,8 +277,9 @@ def case_traced(c: dict) -> dict:
         res = _resid_vec(eos, vp, vm, Tp, Tm)
         t = flux_tolerance(eos, branch, tol, v, vp, vm, Tp, Tm)
         extra = dict(vw=v, vp=vp, vm=vm, Tp=Tp / Tn, Tm=Tm / Tn, branch=branch)
-        r.close(f"{name}:energy-flux", res[0], 0.0, t, **extra)
-        r.close(f"{name}:momentum-flux", res[1], 0.0, t, **extra)
+        sig = "D9sig:" if (max(res) > t and name in SLOW and _own_junction_residual(hyd, vp, vm, Tp, Tm) > 0.1 * max(res)) else ""
+        r.close(f"{name}:{sig}energy-flux", res[0], 0.0, t, **extra)
+        r.close(f"{name}:{sig}momentum-flux", res[1], 0.0, t, **extra)
         # pressures must also be those of the analytic model when inside the traced range
         if th.freeEnergyLow.minPossibleTemperature[0] < Tm < th.freeEnergyLow.maxPossibleTemperature[0]:
             r.close(f"{name}:p_b=analytic", eos.p("b", Tm), am.p("S0", Tm), 1e-5 * abs(am.p("S0", Tm) - am.p("S1", Tm)) + 1e-9 * abs(am.p("S0", Tm)))
